@@ -49,7 +49,7 @@ CLAIMED = {
              ref="DESIGN.md 4 C03"),
  "C16": dict(technique="Kani memory-safety obligations (pointer/bounds/memcpy-region checks) inside contract harnesses that hand each byte-slice consumer a buffer of exactly the contract size; aligned-access intrinsics stubbed as must-be-unreachable",
              text="Reads stay inside the input and writes inside the output for vector byte load/store on every backend (exact 16/32/64-byte buffers), ChaCha apply shapes, hash update/finalize shapes, BLAKE/JH compression on exact-size blocks (JH f8 takes a raw pointer), Threefish block I/O; results are functions of slice contents only (CBMC objects have no address). No aligned-access intrinsic is reachable from these entry points.",
-             note="Alignment FAULTS are not decidable by either verifier (DESIGN.md 4 C16): the claim is the sufficient reachability contract plus the bounds proofs; the guard-page native replay described in the design is not built. Groestl's tf512/tf1024 raw-pointer loads are not covered (AES-NI model not built). Slice APIs are bounded in per-call length.",
+             note="Alignment FAULTS are not decidable by either verifier (DESIGN.md 4 C16): the claim is the sufficient reachability contract plus the bounds proofs; the guard-page native replay described in the design is not built. Slice APIs are bounded in per-call length.",
              ref="DESIGN.md 4 C16"),
  "C04": dict(technique="Kani contracts on the mode of operation: finalize/update/default/reset from an arbitrary state with put_block as uninterpreted function + call log",
              text="Compression function == BLAKE specification (G, sigma schedule, constants, counter words, 14/16 rounds, feed-forward) on every backend; padding (0x80, zeros, 0x01/0x00 marker, 0x81 when they coincide, 64/128-bit big-endian length), one-vs-two final blocks, bit counter excluding padding and 0 for a padding-only block, chaining, IVs and truncated big-endian output are proved for a symbolic chaining value and bit counter, so for every message length.",
@@ -64,8 +64,8 @@ CLAIMED = {
              note="F8: ss / l leaf contracts per backend and the wiring of Compressor::input (42 rounds, round-constant selection, swap schedule, message XORs) through the real dispatch. NOT decided: bit-sliced F8 == the specification's nibble-oriented E8, the round-constant table and the IV constants; assumed (pinned on this host by the repository's 321 KATs). DESIGN.md 4 C06.",
              ref="DESIGN.md 4 C06"),
  "C07": dict(technique="Kani contracts on the mode of operation with init/tf/of as uninterpreted functions + call log",
-             text="IV = output size big-endian, padding with the 64-bit big-endian block count including padding blocks for every 64-bit counter value, one-vs-two final blocks at the <=8-bytes-left boundary, output transformation and truncation windows, reset of the truncated variants.",
-             note="NOT decided: P/Q permutations == the byte-matrix specification (needs an AESENCLAST model and a layout relation); assumed (pinned on this host by the repository's KATs). DESIGN.md 4 C07.",
+             text="Compression function == specification P and Q (see note); IV = output size big-endian, padding with the 64-bit big-endian block count including padding blocks for every 64-bit counter value, one-vs-two final blocks at the <=8-bytes-left boundary, output transformation and truncation windows, reset of the truncated variants.",
+             note="Compression function: one round of P||Q (512) and submix after the spec-derived pre-shuffle (1024, P and Q shift vectors) are proved equal to AddRoundConstant/SubBytes/ShiftBytes/MixBytes of the specification for EVERY byte substitution table (AESENCLAST modelled as ShiftRows, table lookup, xor key: trusted instruction model; the specification's S-box is the AES S-box); tf512/of512/tf1024/of1024/init wiring with the round layer as uninterpreted function against h ^ P(h^m) ^ Q(m) and trunc(P(h)^h); mul2 and the matrix transposes by leaf contracts. Not covered: the three #[target_feature] wrapper modules and the lazy_static function-pointer table that selects among them (they all forward to the verified *_impl bodies).",
              ref="DESIGN.md 4 C07"),
  "C08": dict(technique="Kani contracts: abstract-view contract of update ('the stream view grows by exactly the bytes given') from an arbitrary state for all 15 hash types; clone independence; reset/default equality",
              text="update compresses exactly the complete blocks of pending++data in order with the right counters and keeps the remainder; a hasher's state is a function of the stream view, so every partition gives the same state; clone and reset contracts.",
